@@ -44,7 +44,8 @@ ASSUMES = [
     "hypothesis cv_masked_outside_is_nan of C03_wta_within_pixel_interval",
     "float32 storage of the disparity coordinate: sampled disparities are multiples of 1/4 (exact)",
 ]
-TRUSTED = ["Gen/Constants.v produced by translator/gen_constants.py (ast pattern np.array_split(x, np.arange(B, n, B), axis))"]
+TRUSTED = ["Gen/Constants.v produced by translator/gen_constants.py (ast pattern np.array_split(x, np.arange(B, n, B), axis))",
+           "Gen/BlockLoops.v produced by translator/gen_block_loops.py (ast transliteration of the double block loop: split expressions, statements on the running offsets where they stand, slice bounds, arrays resolved to np.zeros / np.full_like / np.copy / sliding_window view / parameter expression; fail closed) and its reading as a program by Lib/BlockSkeleton.v exec (total arrays, slice writes neither clamped nor shape-checked)"]
 
 BIG = [1, 2, 99, 100, 101, 199, 200, 201, 250]
 SMALL = [1, 3, 101]
